@@ -354,6 +354,7 @@ def run_cases(cases, per_case_timeout=20):
     env['PYTHONPATH'] = common.REPO + os.pathsep + common.VERIF
     env['VERIF_REPO'] = common.REPO
     env['PYTHONDONTWRITEBYTECODE'] = '1'
+    env['TMPDIR'] = d            # whatever a killed child leaves behind goes with d
     i = 0
     errpath = os.path.join(d, 'stderr.txt')
     try:
